@@ -337,6 +337,19 @@ class Arr:
                 _srt((tuple(vkey(i) for i in w["idx"]), tuple(w["guards"]), tuple(w["loops"]), vkey(w["val"])) for w in self.writes))
 
 
+class ArrView:
+    """`a.column(i)` / `a.row(i)` (and the _mut forms) of a tracked 2-d array: element j of the view is a[[j, i]] resp. a[[i, j]]; writes go through."""
+
+    def __init__(self, arr, axis, fixed):
+        self.arr, self.axis, self.fixed = arr, axis, fixed          # axis: the index position that is fixed (1 for a column, 0 for a row)
+
+    def full_index(self, j):
+        return [j, self.fixed] if self.axis == 1 else [self.fixed, j]
+
+    def key(self):
+        return ("arrview", self.arr.ident(), self.axis, vkey(self.fixed))
+
+
 class KeyVal:
     """A value known only by its canonical key (used by rules that rewrite keys and compare them again)."""
 
@@ -388,7 +401,7 @@ class Clo:
 def vkey(v):
     if isinstance(v, Poly):
         return v.key()
-    if isinstance(v, (Rec, Tup, Sym, Alt, Clo, Seq, Coll, Arr, EarlyRet, PushLog, ElemRef, KeyVal)):
+    if isinstance(v, (Rec, Tup, Sym, Alt, Clo, Seq, Coll, Arr, EarlyRet, PushLog, ElemRef, KeyVal, ArrView)):
         return v.key()
     if isinstance(v, (tuple, list)):
         return tuple(vkey(x) for x in v)
@@ -546,7 +559,7 @@ class Ev:
         for p, a in zip(r["params"], args):
             self.bind(p, a, env)
         saved = (self.guards, self.loops, self.path)
-        if depth and any(isinstance(a, Arr) for a in args) and (self.loops or self.guards):
+        if depth and any(isinstance(a, (Arr, ArrView)) for a in args) and (self.loops or self.guards):
             # a helper handed an array under construction (`&mut b`) writes into it in the caller's context: its writes carry the caller's loops and guards
             self.guards, self.loops, self.path = list(self.guards), list(self.loops), list(self.path)
         else:
@@ -1608,6 +1621,12 @@ class Ev:
         if isinstance(arr, Sym) and base.get("k") == "path" and base.get("res") == "local":
             arr = Arr([], arr)            # writes into an existing (opaque) container: base = its previous content
             env[base["id"]] = arr
+        if isinstance(arr, ArrView):
+            iv = self.eval(lhs["i"], env, depth)
+            if isinstance(iv, Poly):
+                self.seq_no = getattr(self, "seq_no", 0) + 1
+                arr.arr.writes.append({"idx": arr.full_index(iv), "guards": tuple(self.guards), "loops": tuple(self.loops), "val": val, "seq": self.seq_no})
+                return
         if isinstance(arr, Arr):
             iv = self.eval(lhs["i"], env, depth)
             idx = list(iv.items) if isinstance(iv, Tup) else [iv]
@@ -1954,6 +1973,12 @@ class Ev:
         i = self.eval(e["i"], env, depth)
         if isinstance(i, Rec) and i.adt.endswith("ops::RangeFull"):
             return b              # `c[..]` is all of c
+        if isinstance(b, ArrView) and isinstance(i, Poly):
+            ik = [vkey(x) for x in b.full_index(i)]
+            for w in reversed(b.arr.writes):
+                if [vkey(x) for x in w["idx"]] == ik and set(w["guards"]) <= set(self.guards) and w["loops"] == tuple(self.loops):
+                    return w["val"]
+            return Poly.atom(("elem", b.arr.ident(), tuple(ik)))
         if isinstance(b, Arr):
             ik = [vkey(x) for x in (i.items if isinstance(i, Tup) else [i])]
             for w in reversed(b.writes):
@@ -2148,6 +2173,8 @@ class Ev:
                      else Sym("at", vkey(recv), idx.key()))
             sq.finite = list(recv.items)
             return sq
+        if m in ("column", "column_mut", "row", "row_mut") and len(args) == 1 and isinstance(recv, Arr) and len(recv.dims) == 2 and isinstance(args[0], Poly):
+            return ArrView(recv, 1 if m.startswith("column") else 0, args[0])
         if m == "iter_mut" and not args and isinstance(recv, Arr) and len(recv.dims) == 1:
             # element idx of `a.iter_mut()` is the place a[idx]; the sequence runs over the array's extent
             return Seq(Sym("range", Poly.const(0).key(), vkey(recv.dims[0])), lambda idx, a=recv: ElemRef(a, [idx]))
